@@ -105,7 +105,7 @@ def gen_v2(tier):
 
 
 # ----------------------------------------------------------------------------- shared run/validate
-def run_real(ctx, part, exe, runs, area, mon, scns, mon_env=None):
+def run_real(ctx, part, exe, runs, area, mon, scns, mon_env=None, crash_is_lost_completion=False):
     """runs: [(mode, args, total)] ; executes, classifies deaths, validates every execution against the monitor."""
     rep = ctx.rep
     merged = os.path.join(ctx.work, "log_%s_all.ndjson" % part)
@@ -138,8 +138,18 @@ def run_real(ctx, part, exe, runs, area, mon, scns, mon_env=None):
             what = "%s in %s/%s execution unit %s: %s %s" % (d["event"], part, mode, unit, d.get("asan", ""), d.get("frame", ""))
             rec = dict(engine=ENG, part=part, mode=mode, event=d["event"], unit=unit, asan=d.get("asan"), frame=d.get("frame"),
                        where=d.get("where"), access=d.get("access"), what=what, detail=d.get("stderr_tail", ""), scenario=scn)
+            fatal = d["event"] in ("Crash", "Terminate") or (d["event"] == "AsanReport" and d.get("asan") == "SEGV")
             if d["event"] in ("Deadlock", "Hang"):
                 # the statement demands progress: a wait racing with set() is never stranded
+                rep.violation(rec)
+            elif crash_is_lost_completion and fatal:
+                # fine-grained v2 family: the process died (SIGSEGV / abort / terminate) inside set()/start()/stop() of
+                # the event, i.e. that call never returns and the waits registered before it are never resumed - the
+                # "every wait started before a set() is resumed exactly once" clause.  (Sanitizer reports that do not
+                # kill the call, e.g. a stale read, stay out-of-scope observations.)
+                rec["what"] = ("%s inside an event operation (lost completion: the waits started before it are never resumed) in "
+                               "%s/%s unit %s: %s %s %s" % (d["event"], part, mode, unit, d.get("asan") or "", d.get("frame") or "",
+                                                          ((d.get("stderr_tail") or "").strip().splitlines() or [""])[-1][-170:]))
                 rep.violation(rec)
             else:
                 # C16 is not a lifetime property: memory events are out-of-scope observations (DESIGN 4, rule 3)
@@ -214,6 +224,45 @@ def build_driver(ctx, which):
             _BUILT[which] = vlib.build(ctx, "auto_driver", ["engines/event/driver_auto.cpp"], defs=["NDEBUG"],
                                        lib=_COMMON + ["async_manual_reset_event_v1.cpp", "async_auto_reset_event.cpp"])
     return _BUILT[which]
+
+
+def gen_v2fine(tier):
+    """2-3 waiters parked on an unset v2 event, a stop for the oldest / middle / newest racing set() (and set+reset)
+    from another thread; executed with the schedule points inside atomic_intrusive_list.cpp accepted."""
+    out, seen = [], set()
+
+    def add(p1, p2, p3, init=0, sched=(1, 2, 3, 1)):
+        _mk(out, seen, "v2", init, p1, p2, p3, sched=sched, extra=dict(fine=1))
+
+    add([W(1), W(2)], [STOP(1)], [SET])                 # oldest of two
+    add([W(1), W(2)], [STOP(2)], [SET])                 # newest of two
+    add([W(1), W(2), W(3)], [STOP(1)], [SET])           # oldest of three
+    add([W(1), W(2), W(3)], [STOP(2)], [SET])           # middle
+    add([W(1), W(2)], [STOP(1)], [SET, RST])
+    add([W(1), W(2)], [STOP(1), STOP(2)], [SET])
+    add([W(1)], [W(2), STOP(1)], [SET])                 # registration, cancellation and set() all concurrent
+    add([W(1), W(2)], [STOP(1)], [SET, DR(0), RST, RDY])
+    if tier != "quick":
+        add([W(1), W(2), W(3)], [STOP(3)], [SET])
+        add([W(1), W(2), W(3)], [STOP(1), STOP(3)], [SET, RST])
+        add([W(1), W(2)], [STOP(2), W(3)], [SET, RST, SET])
+        add([W(1), W(2)], [SET], [STOP(1), RST, W(3)])
+        add([W(1), W(2)], [STOP(1)], [RST, SET], init=1)
+        add([W(1)], [W(2), STOP(2)], [W(3), SET, STOP(3)])
+    return out
+
+
+def part_v2fine(ctx):
+    """v2 event over the real latchable list at link-lock granularity (monitor + progress/crash oracle only: the
+    implementation-shaped model of the list itself is spec/prim/AtomicIntrusiveList, refined to AbstractList there)."""
+    scns = gen_v2fine(ctx.tier)
+    sp = os.path.join(ctx.work, "scn_v2fine.json")
+    json.dump(scns, open(sp, "w"))
+    exe = build_driver(ctx, "event")
+    # bound 1 = every schedule with at most one preemption (complete for these scenarios within the cap)
+    runs = [("dfs", ["--mode", "dfs", "--scenarios", sp, "--bound", 1 if ctx.quick else 2, "--cap", 400 if ctx.quick else 4000], len(scns)),
+            ("random", ["--mode", "random", "--scenarios", sp, "--seed", ctx.seed, "--cap", 40 if ctx.quick else 400], len(scns))]
+    run_real(ctx, "v2fine", exe, runs, "event", "EventMon", scns, crash_is_lost_completion=True)
 
 
 def gen_pass(tier):
@@ -400,7 +449,8 @@ def part_manual(ctx, impl):
              "event", "EventMon", scns)
 
 
-PARTS = {"v1": lambda c: part_manual(c, "v1"), "v2": lambda c: part_manual(c, "v2"), "pass": part_pass, "auto": part_auto}
+PARTS = {"v1": lambda c: part_manual(c, "v1"), "v2": lambda c: part_manual(c, "v2"), "pass": part_pass, "auto": part_auto,
+         "v2fine": part_v2fine}
 
 
 def run(ctx):
@@ -419,7 +469,7 @@ def run(ctx):
         sub.rng = random.Random(ctx.seed * 1000 + i)
         subs.append((name, sub))
     for name in parts:
-        build_driver(ctx, {"v1": "event", "v2": "event", "pass": "pass", "auto": "auto"}[name])
+        build_driver(ctx, {"v1": "event", "v2": "event", "v2fine": "event", "pass": "pass", "auto": "auto"}[name])
     with concurrent.futures.ThreadPoolExecutor(max_workers=min(len(subs), max(1, vlib.NCPU))) as ex:
         futs = [(name, sub, ex.submit(PARTS[name], sub)) for name, sub in subs]
         errs = []
